@@ -470,8 +470,12 @@ PROPS["C11"] = dict(
     jobs=[dict(name="c11", run="^TestPropC11$", kind="rapid", race=True, shards=16, checks={"quick": 80000, "thorough": 1500000},
                env={"GORACE": "halt_on_error=0"}, race_reports=True,
                race_known=[{"finding": "F18", "one_side_matches": r"parser2/value\.\(\*List\)\.(Eval|Append)(\(|-|\.)"}],
-               guard={"quick": 1200, "thorough": 10800})],
-    min_class_fraction={"evaluations_overlapped": 0.15, "constant_list": 0.2, "different_arguments": 0.3},
+               guard={"quick": 1200, "thorough": 10800}),
+          dict(name="library_closures", run="^TestPropLibraryClosures$", kind="rapid", race=True, shards=8, checks={"quick": 1600, "thorough": 40000},
+               env={"GORACE": "halt_on_error=0"}, race_reports=True,
+               race_known=[{"finding": "F18", "one_side_matches": r"parser2/value\.\(\*List\)\.(Eval|Append)(\(|-|\.)"}],
+               guard={"quick": 1200, "thorough": 7200})],
+    min_class_fraction={"evaluations_overlapped": 0.1, "constant_list": 0.15, "different_arguments": 0.3},
 )
 
 
@@ -521,3 +525,8 @@ _amend("C04", "thorough adds a native coverage-guided fuzz campaign.",
        "without optimizer and the evaluation of the unoptimized function is what takes the time) is attributed to the open finding F33; its exemplar "
        "(Generate time of numbers(N).map(i->i).sum() grows with N at constant input length) runs in every tier. thorough adds a native coverage-guided "
        "fuzz campaign; an input on which the fuzzer loses a worker is judged by an isolated replay.")
+_amend("C11", "Oracle: every goroutine's outcome equals the reference interpreter's outcome for its own arguments;",
+       "A second job (library_closures) evaluates five fixed programs that use a closure or map the LIBRARY builds from constants (createLowPass, "
+       "createInterpolation, linearReg, a constant iirApply filter - folded into the function and shared by all evaluations) from 2..12 goroutines on 1..4 "
+       "different irregularly sampled signals; its oracle is the function itself: every concurrent outcome equals an isolated evaluation of a freshly "
+       "generated function with the same argument. Oracle: every goroutine's outcome equals the reference interpreter's outcome for its own arguments;")
